@@ -412,6 +412,15 @@ pub fn run_e2e(seed: u64, thorough: bool, n: usize) {
             pg_case("E2E", &[(p.clone(), Some(root))], true, &h, &[p.clone(), loop1.clone()]);
         }
     }
+    // the committed witness of known finding F3b (Props/F3b.lean): a multi-root pattern that is
+    // not found in itself
+    let f3b = GDesc {
+        nodes: vec![Some((2, 0)), Some((2, 1)), Some((1, 2)), Some((0, 2))],
+        links: vec![((1, 0), (0, 0)), ((2, 0), (0, 1)), ((3, 0), (1, 0))],
+    };
+    for h in [Heur::Default, Heur::Never] {
+        pg_case("E2E", &[(f3b.clone(), Some(3))], true, &h, &[f3b.clone()]);
+    }
     for _ in 0..n {
         let pats = gen_pg_set(&mut rng, thorough, false);
         let heur = random_heur(&mut rng);
